@@ -623,18 +623,29 @@ def chclose_cross(rng, i):
         steps.append({"do": "sync"})
     close = {"k": "chclose", "ch": ch, "code": rng.choice([404, 406]), "text": "NOT_FOUND - x"}
     r = rng.random()
-    if r < 0.4:
+    late = False
+    if r < 0.3:
         steps.append(srv(close, {"k": "chcloseok", "ch": ch}))
-    elif r < 0.8:
+    elif r < 0.55:
         steps.append(srv(close))
         if rng.random() < 0.5:
             steps.append({"do": "sync"})
         steps.append(srv({"k": "chcloseok", "ch": ch}))
+    elif r < 0.7:
+        steps.append(srv(close))
     else:
+        late = True
         steps.append(srv(close))
     steps.append({"do": "sync"})
     steps.append({"do": "unhold", "ch": ch, "discard": True})
     steps.append({"do": "wait", "who": victim})
+    if late:
+        # the server's CloseOk for the client's Close is late: the application has already opened another
+        # channel (whatever id it got) when it arrives - it belongs to nobody any more
+        steps.append({"do": "open", "as": "Y"})
+        steps.append(srv({"k": "chcloseok", "ch": ch}))
+        steps.append({"do": "sync"})
+        steps.append(op("Y", rng.choice(["declare", "qos"])))
     for h in hs:
         if h != victim:
             steps.append(op(h, rng.choice(["qos", "declare", "get"])))
@@ -643,7 +654,12 @@ def chclose_cross(rng, i):
     for c in cons:
         steps.append({"do": "drain", "c": c})
     steps.append({"do": "closeconn"})
-    return {"kind": "chclose-cross", "cfg": {}, "steps": steps}
+    # which id the unchanged allocator hands to the automatic open of the "late" variant: all earlier opens chose
+    # their ids themselves, so its counter still stands at 1 and it takes the smallest id that is not open
+    still_open = {ids[h] for h in hs if h != victim}
+    nxt = min(k for k in range(1, 100) if k not in still_open)
+    reuse = "next-automatic-id" if late and nxt == ch else "no"
+    return {"kind": "chclose-cross", "reuse": reuse, "cfg": {}, "steps": steps}
 
 
 def reply_then_close(rng, i):
